@@ -74,25 +74,42 @@ func (fc *FnCtx) verify() {
 	}
 }
 
-func (fc *FnCtx) queryText(q *Query) string {
+func (fc *FnCtx) queryText(q *Query) string { return fc.queryTextMode(q, false) }
+
+// queryTextMode: light=true drops the well-formedness hypotheses and the axioms of
+// scat/ssub/slsub/slcat (they stay uninterpreted): sound, because removing hypotheses
+// can only make a validity proof harder; many string-algebra goals need congruence only.
+func (fc *FnCtx) queryTextMode(q *Query, light bool) string {
 	var body strings.Builder
-	for _, h := range fc.initAssume {
-		body.WriteString("(assert " + h + ")\n")
-	}
-	for _, h := range q.Hyps {
+	hyps := coneOfInfluence(append(append([]string{}, fc.initAssume...), q.Hyps...), q.Goal, fc.declNames())
+	for _, h := range hyps {
+		if light && (strings.HasPrefix(h, "(wfstr ") || strings.HasPrefix(h, "(wfsl ") || strings.HasPrefix(h, "(wfil ")) {
+			continue
+		}
 		body.WriteString("(assert " + h + ")\n")
 	}
 	body.WriteString("(assert (not " + q.Goal + "))\n")
 	bs := body.String()
 	var out strings.Builder
-	out.WriteString(preambleArray)
-	if strings.Contains(bs, "(itoa ") {
-		out.WriteString(itoaDecl)
-	}
-	if strings.Contains(bs, "(hexs ") {
-		out.WriteString(hexDecl)
+	if light {
+		out.WriteString(preambleLight())
+	} else {
+		out.WriteString(preambleArray)
 	}
 	spec := fc.w.specText(bs)
+	if light {
+		spec = dropWfAxioms(spec)
+	}
+	if strings.Contains(bs+spec, "(itoa ") {
+		out.WriteString(itoaDecl)
+	}
+	if strings.Contains(bs+spec, "(hexs ") {
+		out.WriteString(hexDecl)
+	}
+	if strings.Contains(bs+spec, "(fsread ") {
+		out.WriteString("(declare-fun fsread (Str Int) Str)\n")
+	}
+	out.WriteString(fc.w.regexUFDecls(bs + spec))
 	out.WriteString(spec)
 	full := bs + spec
 	for _, d := range fc.decls {
@@ -121,7 +138,12 @@ func (fc *FnCtx) solveObligation(ob *Obligation, timeout time.Duration) {
 		if ob.MustFail && to > 3*time.Second {
 			to = 3 * time.Second
 		}
-		r := solve(text, arraySolvers, to)
+		var r SolverResult
+		if ob.MustFail {
+			r = solve(text, arraySolvers, to)
+		} else {
+			r = solve2(text, fc.queryTextMode(q, true), arraySolvers, to)
+		}
 		if r.Ms > ob.Ms {
 			ob.Ms = r.Ms
 		}
@@ -155,3 +177,115 @@ func (fc *FnCtx) solveObligation(ob *Obligation, timeout time.Duration) {
 }
 
 var _ = types.Typ
+
+func (fc *FnCtx) declNames() map[string]bool {
+	if fc.declSet != nil && fc.declSetN == len(fc.decls) {
+		return fc.declSet
+	}
+	m := map[string]bool{}
+	for _, d := range fc.decls {
+		f := strings.Fields(d)
+		if len(f) >= 2 {
+			m[f[1]] = true
+		}
+	}
+	fc.declSet, fc.declSetN = m, len(fc.decls)
+	return m
+}
+
+// symbolsOf: declared constants occurring in a term.
+func symbolsOf(t string, decls map[string]bool) []string {
+	var out []string
+	i := 0
+	for i < len(t) {
+		if !isSymChar(t[i]) {
+			i++
+			continue
+		}
+		j := i
+		for j < len(t) && isSymChar(t[j]) {
+			j++
+		}
+		if w := t[i:j]; decls[w] {
+			out = append(out, w)
+		}
+		i = j
+	}
+	return out
+}
+
+// coneOfInfluence keeps the hypotheses that (transitively) share a declared constant
+// with the goal; hypotheses without any declared constant are kept. Dropping
+// hypotheses is always sound for a validity proof.
+func coneOfInfluence(hyps []string, goal string, decls map[string]bool) []string {
+	rel := map[string]bool{}
+	for _, s := range symbolsOf(goal, decls) {
+		rel[s] = true
+	}
+	syms := make([][]string, len(hyps))
+	for i, h := range hyps {
+		syms[i] = symbolsOf(h, decls)
+	}
+	keep := make([]bool, len(hyps))
+	changed := true
+	for changed {
+		changed = false
+		for i := range hyps {
+			if keep[i] {
+				continue
+			}
+			hit := len(syms[i]) == 0
+			for _, s := range syms[i] {
+				if rel[s] {
+					hit = true
+					break
+				}
+			}
+			if hit {
+				keep[i] = true
+				changed = true
+				for _, s := range syms[i] {
+					rel[s] = true
+				}
+			}
+		}
+	}
+	var out []string
+	for i, h := range hyps {
+		if keep[i] {
+			out = append(out, h)
+		}
+	}
+	return out
+}
+
+func preambleLight() string {
+	var out []string
+	skip := false
+	for _, l := range strings.Split(preambleArray, "\n") {
+		if strings.HasPrefix(l, "(assert (forall ((a Str) (b Str))") || strings.HasPrefix(l, "(assert (forall ((s Str) (lo Int)") ||
+			strings.HasPrefix(l, "(assert (forall ((s SL) (lo Int)") || strings.HasPrefix(l, "(assert (forall ((a SL) (b SL))") {
+			skip = true
+		}
+		if skip {
+			if strings.HasPrefix(l, "  :pattern ((scat a b)))))") || strings.HasPrefix(l, "  :pattern ((ssub s lo hi)))))") ||
+				strings.HasPrefix(l, "  :pattern ((slsub s lo hi)))))") || strings.HasPrefix(l, "  :pattern ((slcat a b)))))") {
+				skip = false
+			}
+			continue
+		}
+		out = append(out, l)
+	}
+	return strings.Join(out, "\n")
+}
+
+func dropWfAxioms(spec string) string {
+	var out []string
+	for _, l := range strings.Split(spec, "\n") {
+		if strings.HasPrefix(l, "(assert (forall") && (strings.Contains(l, "(wfstr (") || strings.Contains(l, "(wfsl (")) && !strings.Contains(l, "(= (") {
+			continue
+		}
+		out = append(out, l)
+	}
+	return strings.Join(out, "\n")
+}
